@@ -86,9 +86,19 @@ pub fn mutate_tree(rng: &mut Rng, t: &Tree, go: &GenOpts, clock: &mut i64) -> Tr
                 // modify content (new mtime) of a file
                 let k = rng.pick(&keys).clone();
                 if let Some(n) = t.nodes.get_mut(&k) {
-                    if let NodeKind::File(_) = n.kind {
-                        n.kind = NodeKind::File(gen_content(rng, go));
-                        n.mtime_ns = *clock;
+                    if let NodeKind::File(c) = &n.kind {
+                        if !c.is_empty() && rng.chance(1, 3) {
+                            // replaced by an OLDER copy of the same size (e.g. `cp -p` from elsewhere):
+                            // content differs, size equal, mtime goes BACK (whole seconds or a fraction)
+                            let mut c2 = c.clone();
+                            let i = rng.below(c2.len());
+                            c2[i] = if c2[i] == b'Z' { b'Y' } else { b'Z' };
+                            n.kind = NodeKind::File(c2);
+                            n.mtime_ns -= if rng.chance(1, 2) { 1 + rng.below(999_999_999) as i64 } else { 1_000_000_000 * (1 + rng.below(100_000) as i64) };
+                        } else {
+                            n.kind = NodeKind::File(gen_content(rng, go));
+                            n.mtime_ns = *clock;
+                        }
                     }
                 }
             }
